@@ -11,14 +11,21 @@ package main
 
 import (
 	"bytes"
+	"context"
 	"encoding/json"
+	"errors"
 	"fmt"
+	"io"
+	"net"
 	"os"
 	"strings"
+	"time"
 
 	"github.com/iDigitalFlame/xmt/c2"
+	"github.com/iDigitalFlame/xmt/c2/cfg"
 	"github.com/iDigitalFlame/xmt/com"
 	"github.com/iDigitalFlame/xmt/com/limits"
+	"github.com/iDigitalFlame/xmt/data"
 	"github.com/iDigitalFlame/xmt/device"
 	"github.com/iDigitalFlame/xmt/device/local"
 
@@ -108,6 +115,16 @@ type SendSpec struct {
 	Group    int  `json:"group"`     // the group id the draw is to return when fix_group is set
 }
 
+// WakeSpec is one pass of the client's REAL listen loop: "refused" (Connect fails), "lost" (connected,
+// the exchange fails before a packet is read) or "frag" (the exchange brings fragment K of send S);
+// Sw is what Profile.Switch returns in that pass.
+type WakeSpec struct {
+	Kind string `json:"kind"`
+	Sw   bool   `json:"sw"`
+	S    int    `json:"s"`
+	K    int    `json:"k"`
+}
+
 type HistSpec struct {
 	Class     string     `json:"class"`
 	Dir       string     `json:"dir"` // "c2s" or "s2c"
@@ -119,6 +136,7 @@ type HistSpec struct {
 	SweepsMid int        `json:"sweeps_mid"` // up to this many wake-ups before an arrival: 1 = the protocol's cadence (a client wakes up once per exchange and every exchange with a backlogged server brings at least one packet); 2..4 = a STALLED sender
 	Sched     [][2]int   `json:"sched"`      // explicit arrival schedule [send, fragment] ([-1,0] = wake-up); overrides Order/SweepsMid
 	NoModel   bool       `json:"no_model"`   // too large for a model case: oracle only
+	Wakes     []WakeSpec `json:"wakes"`      // non-empty: the receiver is a client whose real listen loop is run through these passes (overrides Sched/Order)
 }
 
 // ---------------------------------------------------------------- observation
@@ -163,11 +181,17 @@ func errCode(err error) int64 {
 
 // transport: the bytes of Marshal read back by Unmarshal
 func transport(p *com.Packet) *com.Packet {
+	q, _ := transportWire(p)
+	return q
+}
+
+func transportWire(p *com.Packet) (*com.Packet, []byte) {
 	var b bytes.Buffer
 	id, job, fl, dev, pay := p.ID, p.Job, p.Flags, p.Device, append([]byte(nil), p.Payload()...)
 	if err := p.Marshal(&b); err != nil {
 		panic("marshal: " + err.Error())
 	}
+	wire := append([]byte(nil), b.Bytes()...)
 	q := new(com.Packet)
 	if err := q.Unmarshal(&b); err != nil {
 		panic("unmarshal: " + err.Error())
@@ -175,8 +199,89 @@ func transport(p *com.Packet) *com.Packet {
 	if q.ID != id || q.Job != job || q.Flags != fl || q.Device != dev || !bytes.Equal(q.Payload(), pay) || b.Len() != 0 {
 		panic("transport changed a packet (property C01)")
 	}
-	return q
+	return q, wire
 }
+
+// ---- the Profile and connections that script the real listen loop
+
+var errRefused = errors.New("verif: connection refused")
+
+type lstep struct {
+	kind string
+	sw   bool
+	wire []byte
+}
+
+// lprof: every pass of listen() calls Switch, then Connect.  Switch parks the loop until the harness
+// hands over the next pass (so the harness reads the Session only while the loop is parked).
+type lprof struct {
+	arrived chan struct{}
+	steps   chan *lstep
+	cur     *lstep
+	fin     bool
+	v       *c2.VerifC02Session
+}
+
+func (*lprof) Jitter() int8                               { return 0 }
+func (*lprof) Sleep() time.Duration                       { return 0 }
+func (*lprof) WorkHours() *cfg.WorkHours                  { return nil }
+func (*lprof) KillDate() (time.Time, bool)                { return time.Time{}, false }
+func (*lprof) TrustedKey(data.PublicKey) bool             { return true }
+func (*lprof) Next() (string, cfg.Wrapper, cfg.Transform) { return "", nil, nil }
+func (*lprof) Listen(context.Context, string) (net.Listener, error) {
+	return nil, errRefused
+}
+func (p *lprof) Switch(bool) bool {
+	if p.fin {
+		return false
+	}
+	p.arrived <- struct{}{}
+	st, ok := <-p.steps
+	if !ok { // the history is over: only refusals from here on, listen() leaves by "too many errors"
+		p.fin, p.cur = true, nil
+		return false
+	}
+	p.cur = st
+	return st.sw
+}
+func (p *lprof) Connect(context.Context, string) (net.Conn, error) {
+	st := p.cur
+	if st == nil || st.kind == "refused" {
+		return nil, errRefused
+	}
+	p.v.QueueFiller()
+	return &lconn{rbuf: st.wire, fail: st.kind == "lost"}, nil
+}
+
+type laddr struct{}
+
+func (laddr) Network() string { return "verif" }
+func (laddr) String() string  { return "verif" }
+
+// lconn: what the client writes is discarded; it reads the server's answer (one marshalled packet) or fails
+type lconn struct {
+	rbuf []byte
+	fail bool
+}
+
+func (*lconn) Write(b []byte) (int, error) { return len(b), nil }
+func (c *lconn) Read(b []byte) (int, error) {
+	if c.fail {
+		return 0, io.ErrUnexpectedEOF
+	}
+	if len(c.rbuf) == 0 {
+		return 0, io.EOF
+	}
+	n := copy(b, c.rbuf)
+	c.rbuf = c.rbuf[n:]
+	return n, nil
+}
+func (*lconn) Close() error                     { return nil }
+func (*lconn) LocalAddr() net.Addr              { return laddr{} }
+func (*lconn) RemoteAddr() net.Addr             { return laddr{} }
+func (*lconn) SetDeadline(time.Time) error      { return nil }
+func (*lconn) SetReadDeadline(time.Time) error  { return nil }
+func (*lconn) SetWriteDeadline(time.Time) error { return nil }
 
 type sent struct {
 	spec    SendSpec
@@ -184,6 +289,7 @@ type sent struct {
 	err     error
 	perr    bool // write panicked
 	frs     []*com.Packet
+	wire    [][]byte // the marshalled fragments
 	obs     []obsPkt
 	group   int64
 	frag    bool // write produced fragments (FlagFrag set)
@@ -197,7 +303,11 @@ func runHistory(h HistSpec) {
 	rng := vh.NewRand(h.OrderSeed)
 	c2s := h.Dir == "c2s"
 	snd := c2.VerifC02NewSession(idA, !c2s)
+	listenMode := len(h.Wakes) > 0
 	rcv := c2.VerifC02NewSession(idA, c2s)
+	if listenMode {
+		rcv = c2.VerifC02NewClient(idA)
+	}
 	if c2s {
 		local.UUID = idA
 	} else {
@@ -259,7 +369,9 @@ func runHistory(h HistSpec) {
 			}
 			for k, f := range st.frs {
 				st.obs = append(st.obs, observe(f))
-				st.frs[k] = transport(f)
+				var w []byte
+				st.frs[k], w = transportWire(f)
+				st.wire = append(st.wire, w)
 			}
 			sends[i] = st
 			break
@@ -312,7 +424,7 @@ func runHistory(h HistSpec) {
 	for _, e := range h.Sched {
 		sched = append(sched, item{e[0], e[1]})
 	}
-	for len(h.Sched) == 0 {
+	for len(h.Sched) == 0 && !listenMode {
 		var live []int
 		for i := range perSend {
 			if len(perSend[i]) > 0 {
@@ -394,7 +506,106 @@ func runHistory(h HistSpec) {
 			outsDesc = append(outsDesc, "nothing")
 		}
 	}
+	// the same through the REAL listen loop of a client Session: one pass per WakeSpec
+	var (
+		wakeTerms []string
+		wakeDesc  []interface{}
+		errsTerms []string
+		stopped   bool
+		lloop     *c2.VerifC02Loop
+		lp        *lprof
+	)
+	if listenMode {
+		lp = &lprof{arrived: make(chan struct{}), steps: make(chan *lstep), v: rcv}
+		lloop = rcv.Listen(lp)
+		parked := func() bool {
+			select {
+			case <-lp.arrived:
+				return true
+			case <-lloop.Done:
+				return false
+			case <-time.After(20 * time.Second):
+				anomalies = append(anomalies, "listen() neither asked for the next pass nor returned within 20 s")
+				return false
+			}
+		}
+		alive := parked()
+		for _, w := range h.Wakes {
+			if !alive {
+				break // listen() has returned ("too many errors"): the remaining passes never happen
+			}
+			st := &lstep{kind: w.Kind, sw: w.Sw}
+			if w.Kind == "frag" {
+				st.wire = sends[w.S].wire[w.K]
+			}
+			lp.steps <- st
+			alive = parked()
+			evs, drops := rcv.Events(), rcv.DrainSend()
+			for k := 0; k < len(drops); k++ { // what the client had to send anyway is not an answer
+				if drops[k].ID != c2.SvDrop {
+					drops = append(drops[:k], drops[k+1:]...)
+					k--
+				}
+			}
+			en := rcv.Errors()
+			errsTerms = append(errsTerms, vh.Z(int64(en)))
+			switch w.Kind {
+			case "refused":
+				wakeTerms = append(wakeTerms, fmt.Sprintf("(LIRefused %s)", vh.B(w.Sw)))
+			case "lost":
+				wakeTerms = append(wakeTerms, fmt.Sprintf("(LILost %s)", vh.B(w.Sw)))
+			default:
+				wakeTerms = append(wakeTerms, fmt.Sprintf("(LIFrag %s %d %d)", vh.B(w.Sw), w.S, w.K))
+			}
+			wakeDesc = append(wakeDesc, map[string]interface{}{"wake": w, "errors_after": en})
+			if w.Kind != "frag" {
+				if len(evs)+len(drops) > 0 {
+					anomalies = append(anomalies, fmt.Sprintf("a pass without a packet produced %d events, %d answers", len(evs), len(drops)))
+				}
+				continue
+			}
+			// for the oracle this is one arrival at the protocol's cadence (one wake-up before it); the failed
+			// passes are not wake-ups of the protocol: nothing that was sent is lost in them
+			sched = append(sched, item{-1, 0}, item{w.S, w.K})
+			if len(evs) > 1 || len(drops) > 1 || (len(evs) > 0 && len(drops) > 0) {
+				anomalies = append(anomalies, fmt.Sprintf("arrival (%d,%d): %d events, %d answers", w.S, w.K, len(evs), len(drops)))
+			}
+			for _, e := range evs {
+				delivered = append(delivered, delivery{int(e.ID), int(e.Job), append([]byte(nil), e.Payload()...)})
+			}
+			switch {
+			case len(evs) > 0:
+				o := observe(evs[0])
+				outs = append(outs, "(OoDeliver "+o.coq()+")")
+				outsDesc = append(outsDesc, map[string]interface{}{"deliver": o.desc()})
+			case len(drops) > 0:
+				d := drops[0]
+				outs = append(outs, fmt.Sprintf("(OoDrop (%d,%d,%d,%d) %d)", d.Flags.Len(), d.Flags.Position(), d.Flags.Group(), uint16(d.Flags), devNum(d.Device)))
+				outsDesc = append(outsDesc, fmt.Sprintf("SvDrop answer for group %d position %d", d.Flags.Group(), d.Flags.Position()))
+			case en != 0: // session() reported the exchange failed although the packet was read: receive() returned an error
+				outs = append(outs, "(OoErr 0)")
+				outsDesc = append(outsDesc, "receive() error")
+			default:
+				outs = append(outs, "OoNone")
+				outsDesc = append(outsDesc, "nothing")
+			}
+		}
+		stopped = !alive
+	}
 	residue := rcv.Frags()
+	if listenMode {
+		if !stopped {
+			close(lp.steps)
+			select {
+			case <-lloop.Done:
+			case <-time.After(20 * time.Second):
+				anomalies = append(anomalies, "listen() did not return after its connector only refused")
+			}
+		}
+		if x := lloop.Panic(); x != "" {
+			anomalies = append(anomalies, "panic in listen(): "+x)
+		}
+	}
 
 	// ---- oracle: the property, evaluated on the implementation
 	arrived := make([]map[int]int, len(sends))
@@ -566,6 +777,12 @@ func runHistory(h HistSpec) {
 		out.Count(class, fmt.Sprint(h), nontrivial)
 	} else {
 		term := fmt.Sprintf("CHist %d %d %s 1 %s %s %s", F, snd.SendCap(), vh.List(sendTerms), vh.List(schedTerms), vh.List(outs), vh.List(resTerms))
+		if listenMode {
+			desc["passes"] = wakeDesc
+			desc["loop_ended"] = stopped
+			term = fmt.Sprintf("CListen %d %d %s 1 %s %s %s %s %s", F, snd.SendCap(), vh.List(sendTerms), vh.List(wakeTerms), vh.List(outs),
+				vh.List(errsTerms), vh.B(stopped), vh.List(resTerms))
+		}
 		out.Add(term, class, nontrivial, desc)
 	}
 	if len(fails) > 0 {
@@ -588,6 +805,9 @@ func runHistory(h HistSpec) {
 			}
 			if len(h.Sends) > 1 {
 				key += "/interleaved"
+			}
+			if listenMode {
+				key += "/listen-loop"
 			}
 		}
 		desc["failures"] = fails
@@ -795,6 +1015,51 @@ func main() {
 			h := HistSpec{Class: "group-ids", Dir: "c2s", Order: "perm0", Omit: -1, Sends: []SendSpec{fixed(2*F+1000, g), fixed(F+500, o)}}
 			hist(h)
 		}
+	}
+	// ---- the REAL listen loop of a client: [fragment; k failed passes; fragment; ...].  Failed passes
+	// (refused connects, lost exchanges) lose nothing that was sent, and only a pass that follows an
+	// error-free one sweeps (`if s.errors == 0`), so the group must survive any k the loop itself survives
+	{
+		fr := func(s, k int) WakeSpec { return WakeSpec{Kind: "frag", S: s, K: k} }
+		lh := func(class string, sends []SendSpec, wakes []WakeSpec) {
+			for i := range sends {
+				sends[i].Tags = 0
+			}
+			hist(HistSpec{Class: class, Dir: "s2c", Order: "identity", Omit: -1, Sends: sends, Wakes: wakes})
+		}
+		for k := 0; k <= 6; k++ {
+			for _, kind := range []string{"refused", "lost", "mixed"} {
+				if kind == "mixed" && k < 2 {
+					continue
+				}
+				var fails []WakeSpec
+				for j := 0; j < k; j++ {
+					kd := kind
+					if kind == "mixed" {
+						kd = []string{"refused", "lost"}[(j+k)%2]
+					}
+					fails = append(fails, WakeSpec{Kind: kd})
+				}
+				w := []WakeSpec{fr(0, 0)}
+				w = append(w, fails...)
+				w = append(w, fr(0, 2))
+				w = append(w, fails...)
+				w = append(w, fr(0, 1))
+				lh("listen-"+kind, []SendSpec{mkSend(rng, 2*F+1000)}, w) // 6 lost exchanges in a row end the loop: the rest never arrives
+			}
+		}
+		// Profile.Switch returning true (errors--, uint8) in failed passes and in the pass of a fragment
+		lh("listen-switch", []SendSpec{mkSend(rng, 2*F+1000)}, []WakeSpec{fr(0, 0), {Kind: "refused"}, {Kind: "refused", Sw: true}, {Kind: "lost", Sw: true},
+			{Kind: "refused"}, {Kind: "refused"}, {Kind: "frag", Sw: true, S: 0, K: 1}, {Kind: "frag", Sw: true, S: 0, K: 2}})
+		// ... and with the counter at 0: it wraps to 255 and a refused connect ends the loop
+		lh("listen-switch", []SendSpec{mkSend(rng, F+1000)}, []WakeSpec{fr(0, 0), {Kind: "refused", Sw: true}, fr(0, 1)})
+		// two groups, failures everywhere, three foreign exchanges between two fragments of the first
+		lh("listen-interleaved", []SendSpec{mkSend(rng, F+1000), mkSend(rng, 2*F+500)}, []WakeSpec{fr(0, 0), {Kind: "refused"}, {Kind: "lost"}, fr(1, 0),
+			{Kind: "refused"}, {Kind: "refused"}, {Kind: "refused"}, {Kind: "refused"}, fr(1, 2), {Kind: "lost"}, {Kind: "lost"}, {Kind: "lost"}, fr(1, 1),
+			{Kind: "refused"}, {Kind: "refused"}, {Kind: "refused"}, {Kind: "refused"}, {Kind: "refused"}, fr(0, 1)})
+		// seven refused connects: the loop ends, the last fragment never arrives, the group stays incomplete
+		lh("listen-ended", []SendSpec{mkSend(rng, F+1000)}, []WakeSpec{fr(0, 0), {Kind: "refused"}, {Kind: "refused"}, {Kind: "refused"}, {Kind: "refused"},
+			{Kind: "refused"}, {Kind: "refused"}, {Kind: "refused"}, fr(0, 1)})
 	}
 	// ---- occupancy of the send queue around the refusal rule of write: free slots in
 	// {count-2 .. count+1} for counts 2, 3, 5, a full and an empty queue, write(false, ...) and write(true, ...).
